@@ -18,6 +18,18 @@ CHECKS = {
          'enumerated completely; the quaternion codec is enumerated over a stated lattice only.',
          'reference = numpy.float16 / struct / arithmetic re-derived in the check; quaternions only on the lattice',
          'DESIGN.md §3 C13', 'enumeration'),
+
+ 'C07': ('model_checking',
+         'explicit enumeration of all registration tables / mutation scripts / packet sequences up to a bound on the real dispatcher, against a reference table model',
+         'The real _IncomingPacketHandler.run() is executed for all 256 headers x 1088 registrations and for every '
+         'registration list up to length 3 (quick) / 4 (thorough) in which each callback performs one scripted table '
+         'mutation or raises, over 4 packet sequences; every execution is compared with an independent reference '
+         'model of the table (exactly-once, table order, no non-matching delivery, survival after raise, removal '
+         'affects only that registration); cf.link being cleared by another thread at every read position is '
+         'enumerated too. Bounded (list length, 2 packets), complete below the bound.',
+         'independent matcher written from the API documentation; callbacks added during the dispatch of p may or '
+         'may not see p, ones removed before their turn may or may not see p (statement silent)',
+         'DESIGN.md §3 C07', 'E2'),
 }
 
 ALL = ['C%02d' % i for i in range(1, 21)]
